@@ -50,7 +50,7 @@ Rep(n, x) == [i \in 1..n |-> x]
 
 MFresh == [fitted |-> FALSE, data |-> None, chain |-> [s \in Stages |-> <<>>], ndata |-> 0,
            edata |-> None, lazy |-> FALSE, sorted |-> FALSE, order |-> "raw",
-           namesOK |-> TRUE, tf |-> None, hasInput |-> FALSE]
+           namesOK |-> TRUE, tf |-> None, hasInput |-> FALSE, inputLazy |-> FALSE]
 RFresh == [fitted |-> FALSE, base |-> None, shares |-> FALSE, prep |-> None, lazy |-> FALSE, sorted |-> FALSE,
            order |-> "raw"]
 
@@ -77,7 +77,7 @@ FitMayCompute == IF ~Eager /\ ~CheckNans THEN "no" ELSE "may"
 
 FitResult(x, d, newChain, keepSorted) ==
     LET base == [x EXCEPT !.fitted = TRUE, !.data = d, !.chain = newChain, !.ndata = NItems[d],
-                          !.edata = d, !.lazy = ResultsLazy, !.order = "raw", !.tf = d, !.hasInput = TRUE,
+                          !.edata = d, !.lazy = ResultsLazy, !.order = "raw", !.tf = d, !.hasInput = TRUE, !.inputLazy = DaskInput,
                           !.sorted = IF keepSorted THEN @ ELSE FALSE]
     IN  IF Eager /\ Cap.sorts THEN SortStep(base) ELSE base
 
@@ -172,6 +172,16 @@ Compute ==
     /\ last' = [kind |-> "compute"]
     /\ UNCHANGED snaps
 
+\* a compute() that also loads the stored input data (allow_compute flag lost)
+Dev_ComputeLoadsInput ==
+    /\ "ComputeLoadsInput" \in Deviations
+    /\ m.fitted /\ m.namesOK /\ Cap.computable
+    /\ LET c == [m EXCEPT !.lazy = FALSE, !.inputLazy = FALSE]
+       IN  m' = IF Cap.sorts THEN SortStep(c) ELSE c
+    /\ r' = [r EXCEPT !.shares = FALSE]
+    /\ last' = [kind |-> "compute"]
+    /\ UNCHANGED snaps
+
 Dev_ComputeSortsAgain ==
     /\ "ComputeSortsAgain" \in Deviations
     /\ m.fitted /\ m.namesOK /\ Cap.sorts
@@ -189,7 +199,7 @@ Serialize(ph) ==
     /\ last' = [kind |-> "serialize", ph |-> ph]
     /\ UNCHANGED <<m, r>>
 
-Restored(sn) == [sn.mdl EXCEPT !.hasInput = @ /\ ~sn.ph]
+Restored(sn) == [sn.mdl EXCEPT !.hasInput = @ /\ ~sn.ph, !.inputLazy = @ /\ ~sn.ph]
 Deserialize(i) ==
     /\ i \in 1..Len(snaps)
     /\ m' = Restored(snaps[i])
@@ -283,6 +293,7 @@ Next ==
     \/ Dev_QueryReadsTransformCoords
     \/ Compute
     \/ Dev_ComputeSortsAgain
+    \/ Dev_ComputeLoadsInput
     \/ \E ph \in BOOLEAN : Serialize(ph)
     \/ \E i \in 1..MaxSnaps : Deserialize(i)
     \/ \E i \in 1..MaxSnaps : Dev_DeserializeDropsSorted(i)
@@ -357,6 +368,9 @@ C18_RefitResorts ==
 \* evaluate stored results
 C12_LazyFitComputesNothing ==
     (last.kind \in {"fit", "rotfit"} /\ ~Eager /\ ~CheckNans) => last.computes = "no"
+\* C12: the input data stored in the model is never replaced by an in-memory copy, whatever is called
+C12_InputNeverMaterialised == (m.fitted /\ m.hasInput) => (m.inputLazy = DaskInput)
+
 C12_DeferredResultsStayLazy ==
     /\ (last.kind = "fit" /\ DaskInput /\ ~Eager) => m.lazy
     /\ (last.kind = "rotfit" /\ DaskInput /\ ~Eager) => r.lazy
